@@ -55,6 +55,34 @@ fn gen_history(rng: &mut Rng, miri: bool) -> Vec<Op> {
     let n = rng.usize(1, if miri { 12 } else { 60 });
     let mut ops = Vec::new();
     let mut names: Vec<String> = Vec::new();
+    if rng.chance(1, 5) {
+        // bulk: many parts buffered for a few streams, in no particular stream order, before one
+        // flush (what the compressor does at the end of a big round)
+        let ns = rng.usize(2, 6);
+        for _ in 0..ns {
+            let nm = rand_name(rng);
+            if !names.contains(&nm) {
+                names.push(nm.clone());
+            }
+            ops.push(Op::Register(nm));
+        }
+        let nparts = rng.usize(10, if miri { 30 } else { 200 });
+        for i in 0..nparts {
+            let s = rng.usize(0, names.len() - 1);
+            // small distinguishable payloads
+            let d: Vec<u8> = if rng.chance(1, 10) { Vec::new() } else { vec![(i % 251) as u8, (i / 251) as u8, rng.below(256) as u8] };
+            if rng.chance(1, 25) {
+                ops.push(Op::Add(s, d, rand_meta(rng)));
+            } else {
+                ops.push(Op::AddBuffered(s, d, i as u64));
+            }
+            if rng.chance(1, 120) {
+                ops.push(Op::Flush);
+            }
+        }
+        ops.push(Op::Flush);
+        return ops;
+    }
     for _ in 0..n {
         let r = rng.below(10);
         if names.is_empty() || r == 0 {
@@ -306,6 +334,23 @@ pub fn run(args: &Args, rep: &mut Report) {
                 rep.max("max_metadata_bytes", maxw);
                 if interleaved {
                     rep.count("histories_with_immediate_write_while_parts_buffered", 1);
+                }
+                // largest number of parts buffered before one flush
+                let mut cur = 0u64;
+                let mut best = 0u64;
+                for op in &ops {
+                    match op {
+                        Op::AddBuffered(..) => cur += 1,
+                        Op::Flush => {
+                            best = best.max(cur);
+                            cur = 0;
+                        }
+                        _ => {}
+                    }
+                }
+                rep.max("max_parts_buffered_before_a_flush", best);
+                if best > 20 {
+                    rep.count("histories_with_more_than_20_parts_in_one_flush", 1);
                 }
                 if imm + buf >= 2 {
                     rep.nontrivial(fnv(ops_json(&ops).as_bytes()));
